@@ -4,7 +4,7 @@
 use std::time::{Duration, Instant};
 
 use crate::cases::{plan_of, run_case, Case, CaseReport};
-use crate::ide_layer::{Graph, HistOp, HistScenario, Target};
+use crate::ide_layer::{Graph, HistOp, HistScenario};
 use crate::rng::Rng;
 use crate::scenario::{Op, Scenario};
 use crate::sched::Strategy;
@@ -347,13 +347,13 @@ fn clamp_offsets(sc: &mut Scenario) {
 fn minimize_graph(ctx: &mut Ctx, g: Graph, first: CaseReport) -> (Graph, CaseReport) {
     let mut best = g;
     let mut best_r = first;
-    // drop edges one at a time, then knobs
+    // drop include statements one at a time
     loop {
         let mut progressed = false;
-        'outer: for i in 0..best.edges.len() {
-            for j in 0..best.edges[i].len() {
+        'outer: for i in 0..best.files.len() {
+            for j in 0..best.files[i].includes.len() {
                 let mut cand = best.clone();
-                cand.edges[i].remove(j);
+                cand.files[i].includes.remove(j);
                 if let Some(r) = ctx.fails(&Case::Graph(cand.clone()), None) {
                     best = cand;
                     best_r = r;
@@ -366,12 +366,12 @@ fn minimize_graph(ctx: &mut Ctx, g: Graph, first: CaseReport) -> (Graph, CaseRep
             break;
         }
     }
-    // un-nest, drop trailing files nobody references
-    for i in 0..best.edges.len() {
-        for j in 0..best.edges[i].len() {
-            if best.edges[i][j].nested {
+    // un-nest
+    for i in 0..best.files.len() {
+        for j in 0..best.files[i].includes.len() {
+            if best.files[i].includes[j].nested {
                 let mut cand = best.clone();
-                cand.edges[i][j].nested = false;
+                cand.files[i].includes[j].nested = false;
                 if let Some(r) = ctx.fails(&Case::Graph(cand.clone()), None) {
                     best = cand;
                     best_r = r;
@@ -379,14 +379,10 @@ fn minimize_graph(ctx: &mut Ctx, g: Graph, first: CaseReport) -> (Graph, CaseRep
             }
         }
     }
-    while best.edges.len() > 1 {
-        let last = best.edges.len() - 1;
-        let referenced = best.edges.iter().flatten().any(|e| e.target == Target::File(last));
-        if referenced || !best.edges[last].is_empty() {
-            break;
-        }
+    // drop files (never the root; class names follow the index, so only from the end)
+    while best.files.len() > 1 {
         let mut cand = best.clone();
-        cand.edges.pop();
+        cand.files.pop();
         match ctx.fails(&Case::Graph(cand.clone()), None) {
             Some(r) => {
                 best = cand;
@@ -395,14 +391,14 @@ fn minimize_graph(ctx: &mut Ctx, g: Graph, first: CaseReport) -> (Graph, CaseRep
             None => break,
         }
     }
-    for flag in [false, true] {
+    for k in 0..2 {
         let mut cand = best.clone();
-        if flag {
-            cand.inc_files = 0;
+        if k == 0 {
+            cand.include_dir = None;
         } else {
-            cand.include_dir_set = false;
+            cand.unreadable.clear();
         }
-        if cand != best && !cand.edges.iter().flatten().any(|e| matches!(e.target, Target::IncDir(i) if i >= cand.inc_files)) {
+        if cand != best {
             if let Some(r) = ctx.fails(&Case::Graph(cand.clone()), None) {
                 best = cand;
                 best_r = r;
